@@ -139,6 +139,10 @@ func runHistory(env *px.Env, org *origin.Origin, site *origin.Site, c Case, idx 
 		case "len304":
 			// the 304 describes itself, not the stored body
 			v.Raw304 = []origin.HV{{K: "Content-Length", V: "0"}}
+		case "othertag304":
+			// the origin confirms with a 304 that names another tag than the one it was asked about (a tag that
+			// changed while the content did not, a weak/strong respelling): still a 304 - the stored body stays
+			v.Raw304 = []origin.HV{{K: "ETag", V: fmt.Sprintf(`"%s-renamed-%d"`, id, ver)}}
 		case "typed304":
 			v.Raw304 = []origin.HV{{K: "Content-Length", V: "7"}, {K: "Content-Type", V: "text/x-not-the-stored-one"}}
 		}
@@ -189,7 +193,7 @@ func runHistory(env *px.Env, org *origin.Origin, site *origin.Site, c Case, idx 
 			// the proxy starts the lifetime when the origin's header arrives, some time between the start (T0) and
 			// the end (T1) of the exchange that stored the entry: certainly still fresh only measured from T0
 			sureFresh := st != nil && fresh && time.Since(storeT0) < L-10*time.Millisecond
-			maybeFresh := st != nil && fresh
+			maybeFresh := st != nil && fresh && L > 0 // a default lifetime of zero or less: nothing is ever fresh, every request asks the origin
 			switch {
 			case sureFresh:
 				res.nHit++
@@ -332,12 +336,12 @@ func keys(m map[int]bool) []int {
 }
 
 var sub = ev.Register("revalidation-histories",
-	"6-10 concurrent per-resource histories of get(with client conditionals: If-None-Match, If-Modified-Since, If-Match, If-Unmodified-Since, well-formed / malformed / repeated, all carrying marker values) / expire(sleep 1.5 L) / origin bump with validator scheme in {ETag, weak ETag, Last-Modified (IMF-fixdate, RFC 850 or asctime form), both, none, a strong or weak tag that stays the same while the content changes (with or without a changing Last-Modified)} / origin mode in {standard, always 200, 500 or 403 on conditionals, 500/404 always, 304 written by hand with a Content-Length / Content-Type of its own}; model = stored version + its validators; oracle on the origin log: revalidations carry exactly the stored validators, no client marker ever reaches the origin; on the client: 304 keeps the stored body (REVALIDATED) and the next request within the default lifetime is a HIT, 200 replaces it and the old body is never served again, any other status is relayed and the next request asks the origin again; non-trivial = history with >= 2 expiries including a 304 and a 200 replacement; distinct by history",
+	"6-10 concurrent per-resource histories (default lifetime 120/180 ms, or zero / negative: then nothing is ever fresh) of get(with client conditionals: If-None-Match, If-Modified-Since, If-Match, If-Unmodified-Since, well-formed / malformed / repeated, all carrying marker values) / expire(sleep 1.5 L) / origin bump with validator scheme in {ETag, weak ETag, Last-Modified (IMF-fixdate, RFC 850 or asctime form), both, none, a strong or weak tag that stays the same while the content changes (with or without a changing Last-Modified)} / origin mode in {standard, always 200, 500 or 403 on conditionals, 500/404 always, 304 written by hand with a Content-Length / Content-Type of its own}; model = stored version + its validators; oracle on the origin log: revalidations carry exactly the stored validators, no client marker ever reaches the origin; on the client: 304 keeps the stored body (REVALIDATED) and the next request within the default lifetime is a HIT, 200 replaces it and the old body is never served again, any other status is relayed and the next request asks the origin again; non-trivial = history with >= 2 expiries including a 304 and a 200 replacement; distinct by history",
 	func(c Case, o *ev.Obs) *ev.Failure {
 		site := origin.NewSite()
 		org := origin.New(site.Handler())
 		defer org.Close()
-		env := px.New(px.Opts{Backend: c.Backend, DefaultMaxAge: time.Duration(c.LMs) * time.Millisecond})
+		env := px.New(px.Opts{Backend: c.Backend, DefaultMaxAge: time.Duration(c.LMs) * time.Millisecond, DefaultZero: c.LMs == 0})
 		defer env.Close()
 		results := make([]hres, len(c.Histories))
 		var wg sync.WaitGroup
@@ -384,7 +388,7 @@ func drawCase(t *rapid.T) Case {
 	c := Case{
 		Backend:   rapid.SampledFrom([]string{"memory", "file"}).Draw(t, "backend"),
 		Transport: rapid.SampledFrom([]string{"plain", "plain", "tunnel"}).Draw(t, "transport"),
-		LMs:       rapid.SampledFrom([]int{120, 180}).Draw(t, "L"),
+		LMs:       rapid.SampledFrom([]int{120, 120, 180, 180, 0, -1000}).Draw(t, "L"),
 	}
 	nh := rapid.IntRange(6, 10).Draw(t, "histories")
 	for i := 0; i < nh; i++ {
@@ -405,7 +409,7 @@ func drawCase(t *rapid.T) Case {
 			case 3, 4:
 				ops = append(ops, Op{Kind: "bump", Scheme: rapid.SampledFrom([]string{"etag", "weak", "lm", "both", "none", "lm850", "lmasc"}).Draw(t, "scheme")}, Op{Kind: "expire"})
 			case 5:
-				ops = append(ops, Op{Kind: "mode", Mode: rapid.SampledFrom([]string{"standard", "standard", "always200", "cond500", "cond403", "all500", "all404", "len304", "typed304"}).Draw(t, "mode")})
+				ops = append(ops, Op{Kind: "mode", Mode: rapid.SampledFrom([]string{"standard", "standard", "always200", "cond500", "cond403", "all500", "all404", "len304", "typed304", "othertag304"}).Draw(t, "mode")})
 			case 6:
 				ops = append(ops, Op{Kind: "bump", Scheme: rapid.SampledFrom([]string{"etag", "weak", "lm", "both", "none", "lm850", "lmasc"}).Draw(t, "scheme")})
 			case 7:
